@@ -28,7 +28,34 @@ def start_tokens(F):
     fn = F.fn("setStartToken")
     sw = [n for n in walk(fn["body"]) if n.get("k") == "switch"]
     if not sw:
-        raise AnalysisBroken("setStartToken has no switch over the part")
+        # table form: a constant array of {part, token, token} rows that setStartToken (or a helper it calls) searches
+        out = {}
+        names = {x.get("q") or x.get("name") for x in walk(fn["body"]) if x.get("k") == "ref" and x.get("dk") == "global"}
+        for c in walk(fn["body"]):
+            if c.get("k") == "call" and c.get("fn"):
+                for t in F.fns(c["fn"]):
+                    if (t.get("file") or "").endswith(("parser.y", "lexer.l")):
+                        names |= {x.get("q") or x.get("name") for x in walk(t.get("body")) if x.get("k") == "ref" and
+                                  x.get("dk") == "global"}
+        tables = [g for nm in names for g in F.globals.get(nm, []) if g.get("const")]
+        for d in walk(fn["body"]):          # or a function-local static constant table
+            if d.get("k") == "decl":
+                tables += [v for v in d.get("vars", []) if v.get("init") is not None and "[" in (v.get("t") or "")]
+        for g in tables:
+            if True:
+                init = g.get("init")
+                if init is None:
+                    continue
+                for row in walk(init):
+                    if row.get("k") != "initlist":
+                        continue
+                    es = [e for e in (row.get("e") or []) if isinstance(e, dict)]
+                    refs = [e for e in es if e.get("k") == "ref" and e.get("dk") == "enumerator"]
+                    if len(refs) >= 2 and len(refs) == len(es) and (refs[0].get("enum") or "").endswith("xta_part_t"):
+                        out.setdefault(refs[0]["name"], set()).update(r["name"] for r in refs[1:])
+        if len(out) < 10:
+            raise AnalysisBroken("setStartToken has neither a switch over the part nor a part -> token table")
+        return out
     out = {}
     cur = []
     for st in sw[0]["body"].get("s", []):
